@@ -305,6 +305,12 @@ class P2PConnection:
                 return
             self._ack_waiter.set_result(telegram.tpci)
             return
+        if not isinstance(telegram.tpci, TDataConnected):
+            # connection-less (unnumbered) telegrams are not part of the connection
+            logger.debug(
+                "Ignoring connection-less telegram from %s: %s", self.address, telegram
+            )
+            return
         if self._response_waiter.done():
             logger.warning(
                 "Received unexpected point-to-point telegram for %s: %s",
